@@ -13,7 +13,7 @@ FUNCS = ["emboss::prelude::{UInt,Int,Bcd,Flag,Float}View::{Ok,IsComplete,Read,Un
 def main(args):
     def keep(n):
         return not viewcheck.SAFETY.search(n)
-    r = viewcheck.run("C02", args, ["UInt", "Int", "Bcd", "Flag", "Float", "Enum"], ["read"], keep=keep, enum_subset_in_quick=True, functions=FUNCS)
+    r = viewcheck.run("C02", args, ["UInt", "Int", "Bcd", "Flag", "Float", "Enum"], ["read"], keep=keep, enum_subset_in_quick=True, functions=FUNCS, selfcheck=True)
     if isinstance(r, int):
         return r
     from contracts import cpp_views
